@@ -73,7 +73,11 @@ def strategy(shard):
                 c = draw(st.sampled_from(contests))
                 bid = draw(st.sampled_from(["99813_1_1", "99813_1_3", "99813_1_6", "5"]))
                 r = draw(si.pref_list(c["cands"]))
-                if len(r) >= 1 and draw(st.integers(0, 5)) == 0:
+                if draw(st.integers(0, 5)) == 0:
+                    # the ballot also names somebody who is not a candidate of the contest (a write-in), anywhere in the ranking
+                    j = draw(st.integers(0, len(r)))
+                    r = r[:j] + ["WRITEIN"] + r[j:]
+                elif len(r) >= 1 and draw(st.integers(0, 5)) == 0:
                     # a voter may rank the same candidate again further down: the later mention means nothing
                     j = draw(st.integers(0, len(r) - 1))
                     r = r[: j + 1] + [draw(st.sampled_from(r[: j + 1]))] + r[j + 1:]
@@ -221,13 +225,41 @@ def evaluate(case, out):
         A = {(c.id, k): [x for x, _ in sorted(v.items(), key=lambda kv: kv[1])] for c in cv for k, v in c.votes.items()}
         B = {(bid, k): [x for x, _ in sorted(v.items(), key=lambda kv: kv[1])] for bid, vs in rc.items() for k, v in vs.items()}
         want = {}
+        decl = {c["id"]: set(c["cands"]) for c in case["contests"]}
         for cid, bid, r in case["rows"]:
             want[(bid, cid)] = list(dict.fromkeys(r))   # order of first mention
             if len(set(r)) < len(r):
                 out.cls("candidate-ranked-twice")
         out.expect(len({c.id for c in cv}) == len(cv), "audit-reader-returns-several-records-for-one-ballot", lambda: [c.id for c in cv])
-        out.expect(A == B, "readers-disagree", lambda: {"audit": A, "generator": B})
+        # (the generator keeps declared candidates only; the audit's reader keeps every name: compare on the declared ones)
+        A_decl = {k: [x for x in v if x in decl.get(k[1], set())] for k, v in A.items()}
+        out.expect(A_decl == B, "readers-disagree", lambda: {"audit": A_decl, "generator": B})
         out.expect(A == want, "audit-reader!=file", lambda: {"audit": A, "file": want})
+        # and, ballot by ballot, the audit's assorter for "w is not eliminated before l" on the record the audit read equals
+        # (w - l + 1)/2 with the generator's verdicts on the record the generator read
+        from shangrla.core.Audit import Assertion, Contest as AContest
+        from shangrla.core.NonnegMean import NonnegMean
+        from shangrla.raire.raire_utils import NEBAssertion
+        import json as _json2
+        byid = {c.id: c for c in cv}
+        for c in case["contests"]:
+            if len(c["cands"]) < 2:
+                continue
+            w, l = c["cands"][0], c["cands"][1]
+            con = AContest.from_dict({"id": c["id"], "name": c["id"], "risk_limit": 0.05, "cards": 100, "choice_function": "IRV", "n_winners": 1,
+                                      "candidates": list(c["cands"]), "winner": [w], "audit_type": "POLLING", "test": NonnegMean.alpha_mart,
+                                      "use_style": True})
+            js = _json2.loads(_json2.dumps([{"winner": w, "loser": l, "assertion_type": "WINNER_ONLY", "already_eliminated": ""}]))
+            a = next(iter(Assertion.make_assertions_from_json(contest=con, candidates=list(c["cands"]), json_assertions=js).values()))
+            g = NEBAssertion(c["id"], w, l)
+            for bid, rec in rc.items():
+                if c["id"] not in rec or bid not in byid or not byid[bid].has_contest(c["id"]):
+                    continue
+                wantv = (g.is_vote_for_winner(rec) - g.is_vote_for_loser(rec) + 1) / 2
+                gotv = a.assorter.assort(byid[bid])
+                if not out.expect(gotv == wantv, "file:assorter!=generator-verdict", lambda: {"contest": c["id"], "ballot": bid, "audit": gotv, "generator": wantv,
+                                                                                           "audit-record": byid[bid].votes.get(c["id"]), "generator-record": rec.get(c["id"])}):
+                    return
         out.expect({c.name for c in contests} == {c["id"] for c in case["contests"]}, "contest-ids", lambda: [c.name for c in contests])
         byb = {}
         for cid, bid, r in case["rows"]:
